@@ -453,6 +453,13 @@ impl<T: Clone> RawTable<T> {
     /// Variant of `clone_from` to use when a hasher is available.
     pub(crate) fn clone_from_with_hasher(&mut self, source: &Self, hasher: impl Fn(&T) -> u64) {
         let _ = self.leftovers.take();
+        if self.table.len() == 0 {
+            // hashbrown's `clone_from_with_hasher` may reuse our allocation, and then
+            // assumes that every slot of an empty table is free. Tombstones left behind
+            // by removals break that: its `growth_left -= source.len()` underflows. So make
+            // sure an empty table really is pristine first (`clear` skips empty tables).
+            self.table.clear_no_drop();
+        }
         self.table.clone_from_with_hasher(&source.table, &hasher);
         // Since we're doing the work of cloning anyway, we might as well carry the leftovers.
         and_carry_with_hasher(&mut self.table, &source.leftovers, hasher);
